@@ -408,7 +408,19 @@ pub fn drive(seed: u64, _tier: Tier, mode: Mode) {
     one(mode, "Locked", &locked);
     one::<RevocationLockBlindingFactor>(mode, "RevocationLockBlindingFactor", &lockmsg.revocation_lock_blinding_factor);
     let pt2 = unrev.complete_payment(&mut rng, &lockmsg.revocation_pair, &lockmsg.revocation_lock_blinding_factor).ok().expect("complete");
-    let ready2 = locked.unlock(pt2, &w.cust).ok().expect("unlock");
+    let mut ready2 = locked.unlock(pt2, &w.cust).ok().expect("unlock");
+    // boundary balances inside stored states: the customer pays everything (customer balance 0), then is refunded
+    // everything (merchant balance 0) - value-dependent encodings (skipped / defaulted fields) show up here
+    for amt in [93i64, -150] {
+        let (started, start) = ready2.start(&mut rng, amount(amt), &pctx, &w.cust).ok().expect("start (boundary)");
+        one(mode, "Started", &started);
+        let (unrev, closing) = w.merchant.allow_payment(&mut rng, amount(amt), &start.nonce, start.pay_proof, &pctx).expect("allow (boundary)");
+        let (locked, lockmsg) = started.lock(closing, &w.cust).ok().expect("lock (boundary)");
+        one(mode, "Locked", &locked);
+        let pt = unrev.complete_payment(&mut rng, &lockmsg.revocation_pair, &lockmsg.revocation_lock_blinding_factor).ok().expect("complete (boundary)");
+        ready2 = locked.unlock(pt, &w.cust).ok().expect("unlock (boundary)");
+        one(mode, "Ready", &ready2);
+    }
     let cm = ready2.close(&mut rng);
     one(mode, "ClosingMessage", &cm);
     let (csig, cs) = cm.into_parts();
